@@ -134,6 +134,16 @@ def run_case(asm, acc, case):
     else:
         rng = random.Random('c09-rand-%d-%d' % (case['seed'], case['idx']))
         items = randprog.gen(rng, RAND_CFGS[case['idx'] % len(RAND_CFGS)])
+        if case['idx'] % 2:
+            # "labels and constants contribute nothing": constants (never used) whose names look like directives / mnemonics in some
+            # letter case, and labels of that kind, sprinkled between the items
+            for _ in range(rng.randint(1, 4)):
+                nm = rng.choice(['STRING', 'String', 'ERROR', 'Error', 'BYTES', 'Align', 'PACK', 'Db', 'INCLUDE', 'Include_bytes', 'NOP', 'Li', 'string_', 'errors'])
+                k = rng.randrange(len(items) + 1)
+                if rng.random() < 0.7:
+                    items.insert(k, {'k': 'const', 'name': nm, 'value': rng.randrange(0, 100), 'text': str(rng.randrange(0, 100))})
+                elif not any(it['k'] == 'label' and it['name'] == nm + '_L' for it in items):
+                    items.insert(k, {'k': 'label', 'name': nm + '_L'})
         if case['idx'] % len(RAND_CFGS) == 0:
             # odd offsets are allowed here; drop anything with a pc-relative label operand that may have slipped in
             items = [it for it in items if not (it['k'] in ('inst', 'pseudo') and P.label_dependent(it['ops']))]
